@@ -235,6 +235,34 @@ def ord1(ctx, rule="ORD-1"):
     ctx.check(len(kc) >= 3, rule, "key vectors are built by indexing with the key indices", "%d closure sites" % len(kc), "expected three key-building closures in Insert::exec, found %d" % len(kc), f.loc(), fn=f.name)
 
 
+def rows_loaded(ctx, rule="ROWS-ALL"):
+    """the stored rows take part in every rewrite of a table's stream"""
+    prog = ctx.prog
+    ctx.rule(rule, "in Insert::exec, Update::exec and Delete::exec the table's stream is rewritten (create_stream) only on paths that asked the container whether the stream exists, "
+                   "and, where it exists, only after Table::read_rows loaded the stored rows: no query shape (e.g. a delete without a condition) skips the stored rows, whose "
+                   "strings must be released and whose keys must be seen")
+    for nm in ("Insert", "Update", "Delete"):
+        f = prog.fn(Q + nm + "::exec")
+        S = Sym(prog, f)
+        cs = {b for b, t in f.calls() if cname(prog, t) == "cfb::CompoundFile::<F>::create_stream"}
+        ex = {b for b, t in f.calls() if cname(prog, t) in ("cfb::CompoundFile::<F>::exists", "cfb::CompoundFile::<F>::is_stream")}
+        rr = {b for b, t in f.calls() if cname(prog, t).endswith("Table::read_rows")}
+        if not (cs and ex and rr):
+            ctx.anchor_missing(rule, "%s::exec: create_stream / exists / read_rows calls" % nm)
+            continue
+        skip_exists = cs & cfg.reachable(f, 0, avoid=ex)
+        T = {bl["id"] for bl in f.blocks if not bl["cleanup"] and any(tr is True and re.search(r"CompoundFile::<F>::(exists|is_stream)\(", e) for (e, tr, g) in S.bool_facts_at(bl["id"]))}
+        preds = f.preds()
+        heads = {b for b in T if any(p not in T for p in preds[b])}
+        skip_read = set()
+        for h in heads:
+            skip_read |= cs & cfg.reachable(f, h, avoid=rr)
+        ctx.check(not skip_exists and not skip_read and bool(heads), rule, "%s::exec rewrites the stream only with the stored rows loaded" % nm, "%d exists, %d read_rows, %d create_stream" % (len(ex), len(rr), len(cs)),
+                  "%s::exec can reach create_stream %s: the stored rows are not loaded on that path, so their strings are never released (deleted rows leak pool capacity) and "
+                  "they are dropped from / not checked against the rewritten stream" % (nm, "without asking whether the table's stream exists" if skip_exists else "although the stream exists and was not read"),
+                  f.loc(), fn=f.name, key="%s|%s" % (rule, nm))
+
+
 # --------------------------------------------------------------------------- C08
 def pairs(ctx):
     prog = ctx.prog
